@@ -19,6 +19,7 @@ func init() {
 }
 
 type c20Sample struct {
+	Asked  time.Duration
 	At     time.Duration
 	Status int
 }
@@ -67,6 +68,13 @@ func c20Run(r *core.Run) {
 	// per token, per round scripted outcome
 	script := map[string][]world.TokOutcome{}
 	failBias := core.Pick(t, "failbias", 3, 1, 6, 9) // out of 10
+	// "heavy": every successful ping is slow, between half the ping timeout
+	// and just under it, so that the pings of one round together take longer
+	// than the timeout although each token answers within its own
+	slowHeavy := ntok > 1 && t.Chance(1, 3, "slow-heavy")
+	if slowHeavy {
+		failBias = core.Pick(t, "failbias-heavy", 0, 1, 3)
+	}
 	for i := 0; i < ntok; i++ {
 		name := fmt.Sprintf("tok%d", i)
 		for k := 0; k < nrounds+40; k++ {
@@ -78,6 +86,9 @@ func c20Run(r *core.Run) {
 					o.Kind = "error"
 					o.Delay = time.Duration(t.Choose(4, "delay")) * 10 * time.Millisecond
 				}
+			} else if slowHeavy {
+				units := int(timeout / (10 * time.Millisecond))
+				o.Delay = time.Duration(units/2+t.Choose(units-units/2, "slowdelay-heavy")) * 10 * time.Millisecond
 			} else if t.Chance(1, 4, "slow") {
 				// slow but successful, possibly longer than an interval
 				o.Delay = time.Duration(1+t.Choose(int(min64(int64(timeout/(10*time.Millisecond))-1, 300)), "slowdelay")) * 10 * time.Millisecond
@@ -144,8 +155,9 @@ func c20Run(r *core.Run) {
 			req := httptest.NewRequest("GET", "/health", nil)
 			req.RemoteAddr = "192.0.2.7:40000"
 			rec := httptest.NewRecorder()
+			asked := w.Since()
 			h.ServeHTTP(rec, req)
-			samples = append(samples, c20Sample{At: w.Since(), Status: rec.Code})
+			samples = append(samples, c20Sample{Asked: asked, At: w.Since(), Status: rec.Code})
 		}
 		if d := closeAt - w.Since(); d > 0 {
 			w.Sleep(d)
@@ -175,6 +187,36 @@ func c20Run(r *core.Run) {
 	for _, op := range w.TokOpsSnapshot() {
 		if op.Op == "ping" {
 			pings = append(pings, op)
+		}
+	}
+	// every ping's outcome is a function of that token's own scripted
+	// behaviour and the configured per-ping timeout: ok iff it answers without
+	// error in less than the timeout, and a hung ping is given up after exactly
+	// the timeout
+	nth := map[string]int{}
+	for i := range pings {
+		p := &pings[i]
+		k := nth[p.Token]
+		nth[p.Token]++
+		if k >= len(script[p.Token]) || p.End < 0 {
+			continue
+		}
+		o := script[p.Token][k]
+		wantOK := (o.Kind == "" || o.Kind == "ok") && o.Delay < timeout
+		wantDur := o.Delay
+		if o.Kind == "hang" {
+			wantDur = timeout
+		}
+		if wantOK && p.Outcome != "ok" {
+			r.Failf("C20.ping-own-timeout", "ok-ping-failed", "ping %d of %s answers successfully after %v, within the %v ping timeout, but was recorded as %q after %v: a token's outcome depends on something other than its own response", k, p.Token, o.Delay, timeout, p.Outcome, p.End-p.Start)
+			p.Outcome = "ok" // the model below judges by the intended outcome
+		} else if !wantOK && p.Outcome == "ok" {
+			r.Failf("C20.ping-own-timeout", "failed-ping-ok", "ping %d of %s is scripted to fail (%s) but was recorded ok", k, p.Token, o.Kind)
+		} else if p.End-p.Start != wantDur && !(p.End >= closedAt && closedAt > 0) {
+			r.Failf("C20.ping-own-timeout", "duration", "ping %d of %s (%s, delay %v) took %v, expected %v with ping timeout %v", k, p.Token, o.Kind, o.Delay, p.End-p.Start, wantDur, timeout)
+		}
+		if wantOK && o.Delay*time.Duration(ntok) > timeout {
+			r.Probe("slow-round-sum-exceeds-timeout")
 		}
 	}
 	var rounds []c20Round
@@ -210,6 +252,14 @@ func c20Run(r *core.Run) {
 	r.Evals += len(samples)
 	// exactness at every sample
 	for _, s := range samples {
+		if s.At != s.Asked {
+			// the endpoint depends on nothing that takes time: a request that
+			// waits reports nothing while it waits (e.g. behind a token ping
+			// that is allowed up to the ping timeout)
+			wantAsked, whyAsked := c20Health(s.Asked, disabled, interval, nfail, rounds)
+			r.Failf("C20.health-blocked", "waited", "GET /health asked at t=%v was only answered at t=%v (%d); at the instant it was asked the reference model says %d (%s)", s.Asked, s.At, s.Status, wantAsked, whyAsked)
+			continue
+		}
 		want, why := c20Health(s.At, disabled, interval, nfail, rounds)
 		r.Sig(fmt.Sprintf("sample/%s/%d/n=%d/tok=%d", strings.Fields(why)[len(strings.Fields(why))-1], want, nfail, ntok))
 		if s.Status != want {
